@@ -13,7 +13,7 @@ rs   n:<name> <qtype> <from> ips:<addrs> rx:<ids>            → hit:<byte> | no
 cfg  <nUp> <reqfb> <reqrules> <respfb> <resprules> [urls:…]  → ok | builderr
 dq   n:<host> <4|6|46> rx:<ids>    daedns.Router.LookupIPAddr → per asked type: <qtype>=u<k> | <qtype>=pass
 depth <N>                          MaxDnsLookupDepth of the code under test → ok
-ask  <dst> <isResp> <q|noq> n:<name> <qtype> rx:<ids> ip:<0|1> cl:<class> seed:<entries> ans:<table>
+ask  <dst> <isResp> <q|q2|noq> n:<name> <qtype> rx:<ids> ip:<0|1> cl:<class> seed:<entries> ans:<table>
                                                              → trace=… reply=… | cache=… err=…
    (the part after " | " is diagnostic: the check compares it but does not call a difference a violation;
     the response cache is threaded through the asks of one `cfg` scenario)
@@ -195,6 +195,7 @@ def upStr (dst : Nat) : UpRef → String
 def replyStr : Reply → String
   | .answers r ok => s!"ans:{if ok then "ok" else "fail"}:{recsStr r}"
   | .rejected => "ans:ok:-"      -- the client sees an empty answer with rcode success
+  | .refused => "ans:fail:-"     -- FORMERR
   | .error _ => "err"            -- the error class is diagnostic (printed after " | ")
 
 def keyLine (e : CacheKey × List Rec) : String :=
@@ -369,16 +370,17 @@ def handleLine (st : St) (line : String) : St × String :=
         parseList "ans:" ans, st.reqProg, st.respProg, (dropS clTok 3).toNat? with
     | some dst, some nm, some qt, some rx, some seed, some ans, some P, some Q, some cl =>
       let q : Question := { name := nm, qtype := qt, rx := rx, isIp := ipTok == "ip:1", qclass := cl }
-      let q? := if hasQ == "q" then some q else none
+      let q? := if hasQ == "q" || hasQ == "q2" then some q else none
+      let nq := if hasQ == "q2" then 2 else if hasQ == "q" then 1 else 0
       match seed.mapM (parseSeed q), ans.mapM (parseAns q?) with
       | some seed, some tbl =>
         let cfg : Cfg := { nUp := st.nUp, req := P, resp := Q, maxDepth := st.maxDepth, dead := st.dead }
         let cache0 : Cache := seed.foldl (fun c e => Cache.store c e.1.1 e.1.2) st.cache
         let stale0 : List CacheKey := seed.foldl (fun l e => if e.2 then e.1.1 :: l.erase e.1.1 else l.erase e.1.1) st.stale
         let o : OutcomeO :=
-          if st.optimistic then handleOpt cfg cache0 stale0 dst (isResp == "1") q? (ansFn tbl)
+          if st.optimistic then handleMsgOpt cfg cache0 stale0 dst (isResp == "1") nq q? (ansFn tbl)
           else
-            let h := handle cfg cache0 dst (isResp == "1") q? (ansFn tbl)
+            let h := handleMsg cfg cache0 dst (isResp == "1") nq q? (ansFn tbl)
             ⟨h.trace, h.reply, h.cache, stale0⟩
         let st := { st with cache := o.cache, stale := o.stale }
         let keys := (o.cache.map keyLine).mergeSort (fun a b => decide (a ≤ b))
